@@ -117,6 +117,10 @@ def presentations(inst):
   if idx % 3 != 2:
     out.append({'name': 'custom', 'shuffle': 2 if idx % 2 else None, 'custom': True,
                 'memo': True, 'labels': idx % 4, 'explicit_target': idx % 2 == 0})
+  if idx % 2 == 1:
+    # a frame whose index labels repeat (e.g. the concatenation of per-period frames without ignore_index)
+    out.append({'name': 'dup_index', 'shuffle': 3 if idx % 4 == 1 else None, 'custom': False, 'memo': True,
+                'dup_index': True})
   return out
 
 
@@ -179,6 +183,8 @@ def build(inst, pres):
     frame = pd.DataFrame(cols, columns=order, index=[g * nd + d for g, d in cells])   # labels follow the rows
   else:
     frame = pd.DataFrame(cols, columns=order)
+  if pres.get('dup_index'):
+    frame.index = [k % max(2, nd // 3) for k in range(len(frame))]
   rows = [{'id': g * nd + d + 1, 'geo': g + 1, 'grp': inst['groups'][g], 'date': d + 1,
            'period': inst['periods'][d], 'value': int(inst['vals'][g][d])} for g, d in cells]
   maps = {'names': names,
